@@ -129,11 +129,20 @@ def exact_expectation(case):
     if max(abs(elo), abs(ehi)) > Fraction(10) ** 300:
         return None
     dl, dh = Fraction(vals[-2]), Fraction(vals[-1])
-    def clear(decl, ex):
-        return abs(decl - ex) >= max(abs(ex), 1) * Fraction(1, 10000)
-    if not (clear(dl, elo) and clear(dh, ehi)):
+    # per side: clearly outside (by more than 1e-4 of the bound), or inside / on the bound / beyond it by less than 1e-9 of
+    # the bound (far within the documented tolerance of 1e-6); anything between is not judged
+    def side(decl, ex, outward):
+        margin = max(abs(ex), 1)
+        beyond = (decl - ex) * outward          # > 0: outside the calculated range
+        if beyond >= margin * Fraction(1, 10000):
+            return 'out'
+        if beyond <= margin * Fraction(1, 10 ** 9):
+            return 'in'
         return None
-    return dl < elo or dh > ehi
+    lo_side, hi_side = side(dl, elo, -1), side(dh, ehi, 1)
+    if lo_side is None or hi_side is None:
+        return None
+    return lo_side == 'out' or hi_side == 'out'
 
 
 def oracle_line(case, impl):
